@@ -1,5 +1,6 @@
 import UF.Spec.Result
 import UF.Proofs.Result
+import UF.Proofs.ResultExamples
 /-
   C06 — the verdict follows the documented precedence, whatever the rule order.
   Property theorems only (helper lemmas live in UF/Proofs/Result.lean).
@@ -88,14 +89,6 @@ theorem c06_precedence_doc (rules src : List NetRule)
 
 /-! #### non-vacuity and the old shape (D5) -/
 
-/-- `||ads.com^$domain=site.com`, `@@||site.com^$genericblock`, `@@||site.com^$urlblock`. -/
-def exBlock : NetRule := { text := lit "||ads.com^$domain=site.com", pattern := lit "||ads.com^", permDomains := [lit "site.com"] }
-def exG : NetRule :=
-  { text := lit "@@||site.com^$genericblock", pattern := lit "||site.com^", whitelist := true,
-    enabled := Facts.OptionGenericblock, permTypes := Facts.TypeDocument }
-def exU : NetRule :=
-  { text := lit "@@||site.com^$urlblock", pattern := lit "||site.com^", whitelist := true,
-    enabled := Facts.OptionUrlblock, permTypes := Facts.TypeDocument }
 
 /-- Repaired code on the D5 replay: allow in both orders (and block without the source exceptions). -/
 example : classOf (getBasicResult (newMatchingResult [exBlock] [exG, exU])) = .allow ∧
